@@ -1093,7 +1093,7 @@ fn run_case(line: &str, sink: &mut Sink, tags: &str) -> String {
         _ => "bad-op".into(),
     });
     for o in oracle {
-        sink.oracle_failure(line.to_string(), o.0, &format!("{}{} {}", tags, kf_tags(line), o.1));
+        sink.oracle_failure(line.to_string(), o.0.replace(['\n', '\r', '\t'], " "), &format!("{}{} {}", tags, kf_tags(line), o.1));
     }
     ans
 }
